@@ -47,6 +47,8 @@ type verifObj struct {
 	exists bool
 	body   []byte
 	nTags  int
+	nMeta  int  // user metadata entries
+	cc     bool // Cache-Control present
 }
 
 type verifStore struct {
@@ -118,11 +120,17 @@ func verifInnerStore(s *verifStore) *verifDouble {
 		if err != nil {
 			return nil, err
 		}
-		n := 0
+		obj := verifObj{exists: true, body: body}
 		if o != nil {
-			n = len(o.Tags)
+			if o.IfNoneMatchStar && s.keys[verifKeyIdx(k)].exists {
+				return nil, storage.ErrPreconditionFailed
+			}
+			obj.nTags = len(o.Tags)
+			if o.Metadata != nil {
+				obj.nMeta, obj.cc = len(o.Metadata.UserMetadata), o.Metadata.CacheControl != nil
+			}
 		}
-		s.keys[verifKeyIdx(k)] = verifObj{exists: true, body: body, nTags: n}
+		s.keys[verifKeyIdx(k)] = obj
 		s.applied++
 		return &storage.PutObjectResult{}, nil
 	}
@@ -275,7 +283,7 @@ func VerifC21History() {
 	}
 	steps := verifParam("steps", 3)
 	for s := 0; s < steps; s++ {
-		switch verifPick("op", 0, 8) {
+		switch verifPick("op", 0, 9) {
 		case 0: // create bucket
 			verifAssume(!model.bucket)
 			verifAssert(os.CreateBucket(verifBg, bucket) == nil, "CreateBucket not accepted")
@@ -285,13 +293,36 @@ func VerifC21History() {
 			k := verifPick("key", 0, 1)
 			body := []byte{verifByte("body")}
 			var opts *storage.PutObjectOptions
-			nTags := 0
-			if verifBool("with-tags") {
-				opts, nTags = &storage.PutObjectOptions{Tags: map[string]string{"t": "1"}}, 1
+			want := verifObj{exists: true, body: body}
+			switch verifPick("put-options", 0, 3) {
+			case 1:
+				opts, want.nTags = &storage.PutObjectOptions{Tags: map[string]string{"t": "1"}}, 1
+			case 2:
+				opts, want.nMeta = &storage.PutObjectOptions{Metadata: &storage.ObjectMetadata{UserMetadata: map[string]string{"alpha": "1"}}}, 1
+			case 3:
+				cc := "no-cache"
+				opts, want.cc = &storage.PutObjectOptions{Metadata: &storage.ObjectMetadata{CacheControl: &cc}}, true
 			}
 			_, err := os.PutObject(verifBg, bucket, storage.MustNewObjectKey(verifKeyNames[k]), nil, bytes.NewReader(body), nil, opts)
 			verifAssert(err == nil, "PutObject not accepted")
-			model.keys[k] = verifObj{exists: true, body: body, nTags: nTags}
+			model.keys[k] = want
+		case 9: // conditional put (If-None-Match: *): evaluated against every accepted write
+			verifAssume(model.bucket)
+			// the injected failure is for replays; a write-through would just report it
+			verifAssume(inner.failAt < 0 || inner.failed)
+			k := verifPick("key", 0, 1)
+			body := []byte{verifByte("body")}
+			var err error
+			verifRead(func() {
+				_, err = os.PutObject(verifBg, bucket, storage.MustNewObjectKey(verifKeyNames[k]), nil, bytes.NewReader(body), nil, &storage.PutObjectOptions{IfNoneMatchStar: true})
+			})
+			verifCover("conditional-put")
+			if model.keys[k].exists {
+				verifAssert(err == storage.ErrPreconditionFailed, "If-None-Match:* put over an accepted (possibly still queued) object was not refused")
+			} else {
+				verifAssert(err == nil, "If-None-Match:* put on an absent key was refused")
+				model.keys[k] = verifObj{exists: true, body: body}
+			}
 		case 2: // delete object
 			verifAssume(model.bucket)
 			k := verifPick("key", 0, 1)
@@ -355,6 +386,7 @@ func VerifC21History() {
 		if model.keys[k].exists {
 			verifAssert(bytesEq(inner.keys[k].body, model.keys[k].body), "after draining, a key's content differs from the accepted history")
 			verifAssert(inner.keys[k].nTags == model.keys[k].nTags, "after draining, a key's tags differ from the accepted history")
+			verifAssert(inner.keys[k].nMeta == model.keys[k].nMeta && inner.keys[k].cc == model.keys[k].cc, "after draining, a key's metadata differs from the accepted history")
 		}
 	}
 }
